@@ -60,6 +60,10 @@ type handler1 struct {
 	sleepDuration    uint16
 	cancelPinger     context.CancelFunc
 	pktBuffer        []snPkts.Packet
+	// Serializes sending (or queuing) of packets for the client with the
+	// changes of the sleep state: nothing may be sent to the client after
+	// the packet which puts it to sleep.
+	snLock sync.Mutex
 	group            *errgroup.Group
 	transactions     *transactions.TransactionStore
 	// Transactions initiated by the MQTT broker. The client and the broker
@@ -483,10 +487,13 @@ func (h *handler1) handleMqtt(ctx context.Context, pkt mqPkts.ControlPacket) err
 			atomic.AddInt32(&h.ownPings, -1)
 			return nil
 		}
+		// (The client can fall asleep anytime: check and send in one step.)
+		h.snLock.Lock()
+		defer h.snLock.Unlock()
 		if h.state.Get() != util.StateActive {
 			return nil
 		}
-		return h.snSend(snPkts1.NewPingresp())
+		return h.snSendLocked(snPkts1.NewPingresp())
 
 	// MQTT broker PUBLISH QOS 0,1,2 transaction.
 	case *mqPkts.PublishPacket:
@@ -622,12 +629,17 @@ func (h *handler1) handleConnect(ctx context.Context, snConnect *snPkts1.Connect
 	// to the active state, it does not start a new connection.
 	// See doc/specification-interpretation.md.
 	if state := h.state.Get(); state == util.StateAwake || state == util.StateAsleep {
-		h.setState(util.StateActive)
 		h.stopSleepPinger()
-		if err := h.snSend(snPkts1.NewConnack(snPkts1.RC_ACCEPTED)); err != nil {
-			return err
+		h.snLock.Lock()
+		h.setState(util.StateActive)
+		err := h.snSendLocked(snPkts1.NewConnack(snPkts1.RC_ACCEPTED))
+		var flushed []snPkts.Packet
+		if err == nil {
+			flushed, err = h.flushPktBuffer()
 		}
-		return h.flushPktBuffer()
+		h.snLock.Unlock()
+		h.restartRetries(flushed)
+		return err
 	}
 
 	// Cancel previous transaction, if any.
@@ -908,18 +920,24 @@ func (h *handler1) handleMqttSn(ctx context.Context, pkt snPkts.Packet) error {
 	// Client PING transaction (going AWAKE or just a keepalive).
 	case *snPkts1.Pingreq:
 		if h.state.Get() == util.StateAsleep {
+			h.snLock.Lock()
 			// Must be set before snSend otherwise the packets will be queued...
 			h.setState(util.StateAwake)
-			if err := h.flushPktBuffer(); err != nil {
-				return err
+			flushed, err := h.flushPktBuffer()
+			if err == nil {
+				err = h.snSendLocked(snPkts1.NewPingresp())
 			}
-			err := h.snSend(snPkts1.NewPingresp())
 			// The client goes back to sleep after PINGRESP (for another
 			// sleep duration).
 			// See MQTT-SN specification v. 1.2, chapter 6.14.
 			h.setState(util.StateAsleep)
+			h.snLock.Unlock()
+			h.restartRetries(flushed)
+			if err != nil {
+				return err
+			}
 			h.restartSleepPinger(ctx)
-			return err
+			return nil
 		} else {
 			mqPkt := mqPkts.NewControlPacket(mqPkts.Pingreq).(*mqPkts.PingreqPacket)
 			return h.mqttSend(mqPkt)
@@ -940,6 +958,8 @@ func (h *handler1) handleMqttSn(ctx context.Context, pkt snPkts.Packet) error {
 			h.log.Debug("Going to sleep for %vs", snPkt.Duration)
 			h.sleepDuration = snPkt.Duration
 			h.restartSleepPinger(ctx)
+			h.snLock.Lock()
+			defer h.snLock.Unlock()
 			if h.state.Get() == util.StateAsleep {
 				// The client prolongs its sleep: keep the queued packets
 				// and do not queue the reply.
@@ -948,7 +968,7 @@ func (h *handler1) handleMqttSn(ctx context.Context, pkt snPkts.Packet) error {
 				h.pktBuffer = nil
 			}
 			m2 := snPkts1.NewDisconnect(0)
-			if err := h.snSend(m2); err != nil {
+			if err := h.snSendLocked(m2); err != nil {
 				return err
 			}
 			// Must be set after snSend otherwise the packet will be queued...
@@ -1061,11 +1081,24 @@ func (h *handler1) startSleepPinger(ctx context.Context) context.CancelFunc {
 
 // flushPktBuffer delivers the packets queued while the client was asleep.
 // The state must not be asleep anymore, otherwise the packets would be queued again.
-func (h *handler1) flushPktBuffer() error {
-	for _, pkt := range h.pktBuffer {
-		if err := h.snSend(pkt); err != nil {
-			return err
+//
+// Must be called with snLock held. The caller passes the returned packets to
+// restartRetries after it releases the lock.
+func (h *handler1) flushPktBuffer() ([]snPkts.Packet, error) {
+	flushed := h.pktBuffer
+	h.pktBuffer = nil
+	for i, pkt := range flushed {
+		if err := h.snSendLocked(pkt); err != nil {
+			return flushed[:i], err
 		}
+	}
+	return flushed, nil
+}
+
+// restartRetries restarts the retry delay of the transactions whose queued
+// packets have just been sent (see brokerPublishTransactionBase.Flushed).
+func (h *handler1) restartRetries(flushed []snPkts.Packet) {
+	for _, pkt := range flushed {
 		if pkt2, ok := pkt.(snPkts1.PacketWithID); ok {
 			transactionx, _ := h.brokerTxStore.Get(pkt2.MessageID())
 			if transaction, ok := transactionx.(brokerPublishTransaction); ok {
@@ -1073,11 +1106,16 @@ func (h *handler1) flushPktBuffer() error {
 			}
 		}
 	}
-	h.pktBuffer = nil
-	return nil
 }
 
 func (h *handler1) snSend(pkt snPkts.Packet) error {
+	h.snLock.Lock()
+	defer h.snLock.Unlock()
+	return h.snSendLocked(pkt)
+}
+
+// snSendLocked is snSend for callers which hold snLock already.
+func (h *handler1) snSendLocked(pkt snPkts.Packet) error {
 	if h.state.Get() == util.StateAsleep {
 		h.log.Debug("Queued %v", pkt)
 		h.pktBuffer = append(h.pktBuffer, pkt)
